@@ -104,7 +104,7 @@ def check_table(uset, rows, res, pairs):
     if not np.array_equal(n2p.mksetpv(uset, mask["g"], mask["a"]) if all(l in SUP["g"] or l not in SUP["a"] for l in letters) else True,
                           n2p.mksetpv(uset, "g", "a") if all(l in SUP["g"] or l not in SUP["a"] for l in letters) else True):
         msgs.append("integer bitmask form of mksetpv differs from the string form")
-    if not np.array_equal(uset.values, snap):
+    if not np.array_equal(uset.values.astype(float), snap.astype(float), equal_nan=True):
         msgs.append("mksetpv modified the USET table")
     return msgs
 
